@@ -9,12 +9,12 @@ META = {
              'sorted set of body-length residues relative to the segment capacity); non-trivial when at least one '
              'record body lies within 14 bytes of a capacity multiple or a segment is padded'),
     'required_obs': {
-        'quick': ['segment-padded', 'segcount-1', 'segcount-2', 'segcount-3', 'nonlast-shortened', 'segment-body-12',
+        'quick': ['segment-padded', 'segment-pad-gt1', 'segcount-1', 'segcount-2', 'segcount-3', 'nonlast-shortened', 'segment-body-12',
                   'vr-at-maximum', 'eflr-continuation', 'tap-compared', 'e2e-file'],
     },
     'exhaustive_windows': {
-        'quick': ['record lengths 32,34,36,40,64,126,128,8192,16384 x body lengths k*cap+d, k in 0..4, d in -14..14'],
-        'thorough': ['every even record length 32..160 x body lengths k*cap+d, k in 0..4, d in -14..14'],
+        'quick': ['record lengths 20,22,30,32,34,36,40,64,126,128,8192,16384 x body lengths k*cap+d, k in 0..4, d in -14..14 (>= 4)'],
+        'thorough': ['every even record length 20..160 x body lengths k*cap+d, k in 0..4, d in -14..14 (>= 4)'],
     },
     'assumptions': ['strict reader vf/rp66.py implements RP66 V1 chapter 2 correctly (validated by selftest/reader)'],
 }
